@@ -29,7 +29,7 @@ def parse_simple_query(q):
 
 class C04(PropBase):
     id = 'C04'
-    rule = ('typed sids x query / keyword overlays of 1-3 pairs over existing, deeper, foreign, optional (~), invalid, search, odd and None values; '
+    rule = ('typed sids x query / keyword overlays of 1-3 pairs over existing, deeper, foreign, optional (~), invalid, search, odd and None values; deeper keys with a valid value followed by an encoded newline / blank; '
             'non-trivial = overlay on a typed sid; distinct by (sid, overlay, call form)')
     def cases(self, rng, ctx, tier):
         v = gen.vocab_from_ctx(ctx)
@@ -63,6 +63,24 @@ class C04(PropBase):
                         val = [rng.choice(gen.OPEN_VALUES + gen.ODD_VALUES)]
                     kw.append([k, val])
                 out.append(Case('get_with_kw', [['s', s], kw], 'get_with(kw)', {'sid': s, 'kw': kw}))
+        # a deeper key whose value is valid up to a trailing (percent-encoded) newline: accepted by the lenient reverse check,
+        # rejected by the canonical one - the query is then not applied at all
+        for t in v.order:
+            keys = [k for k, _ in v.types[t]]
+            for t2 in v.order:
+                k2 = v.types[t2]
+                if len(k2) == len(keys) + 1 and [k for k, _ in k2[:-1]] == keys:
+                    for _ in range(max(2, n // 20)):
+                        fields = v.fields(t, rng)
+                        s = '/'.join(val for _, val in fields)
+                        val = v.value(k2[-1][1], rng)
+                        if set(val) - SIMPLE or not val:
+                            continue
+                        q = k2[-1][0] + '=' + val + rng.choice(['%0A', '%0a', '%0A%0A', '%0D', '%20'])
+                        meta = {'sid': s, 'q': q}
+                        out.append(Case('obs', [['s', s]], 'base', meta))
+                        out.append(Case('sid', [['s', s + '?' + q]], 'string?query', meta))
+                        out.append(Case('get_with_q', [['s', s], q], 'get_with(query)', meta))
         # untyped and empty receivers
         for _ in range(n):
             s = gen.junk_string(rng).replace('?', '')
